@@ -37,6 +37,8 @@ def ptr_get(doc, frag):
 def designated(docs, base, ref, missing):
     full = urllib.parse.urljoin(base, ref)
     url, _, frag = full.partition("#")
+    if url.lower().startswith("file:") and "?" in url:
+        url = url.split("?", 1)[0]   # a local file has no query: file:///x.json?v=1 is a spelling of file:///x.json
     if url in missing or url not in docs:
         return False, None
     return ptr_get(docs[url], frag)
